@@ -21,6 +21,7 @@ type Seed struct {
 	File    string   `json:"file"`
 	Find    string   `json:"find"`
 	Replace string   `json:"replace"`
+	Append  string   `json:"append,omitempty"` // text added at the end of the file (new helper functions)
 	Expect  string   `json:"expect"` // substring of the failing obligation key
 	Note    string   `json:"note,omitempty"`
 	// Benign seeds are behaviour-preserving edits: the rules must stay silent.
@@ -87,7 +88,7 @@ func runSeeds(seeds []Seed, repo string, onlyRules map[string]bool) []SeedResult
 			results[i].Detail = fmt.Sprintf("anchor text occurs %d times (seed no longer applies)", n)
 			continue
 		}
-		mut := strings.Replace(string(src), sd.Find, sd.Replace, 1)
+		mut := strings.Replace(string(src), sd.Find, sd.Replace, 1) + sd.Append
 		mf := filepath.Join(tmp, fmt.Sprintf("seed%d.go", i))
 		os.WriteFile(mf, []byte(mut), 0o644)
 		out := filepath.Join(tmp, fmt.Sprintf("seed%d.json", i))
